@@ -405,7 +405,7 @@ class Elf(BinFormat):
             for s in self.Shdr:
                 if s.sh_type in (SHT_REL, SHT_RELA):
                     for r in self.readsection(s):
-                        if r.r_offset:
+                        if r.r_offset and r.r_sym:
                             sym = dynsym[r.r_sym]
                             D[r.r_offset] = str(dynstr[sym.st_name].decode())
         return D
